@@ -127,7 +127,8 @@ def items():
 
     # ------------------------------------------------------------------ scale.py: the factory
     scale = R(expr=[
-        ("isinstance($x, Number)", "({x}.isNumber)"), ("np.asarray($x)", "{x}"), ("np.all($x)", "({x}.allNonzero)"),
+        ("isinstance($x, Number)", "({x}.isNumber)"), ("np.asarray($x)", "{x}"), ("np.all($x == $v)", "(ScaleArg.allClose {x} {v})"),      # exact comparison (notes/fixes/C20-scale-factory-allclose.diff)
+        ("np.all($x)", "({x}.allNonzero)"),
         ("np.allclose($x, $v)", "(ScaleArg.allClose {x} {v})"),
         ("$x.shape[0]", "({x}.shape0)", "bind"), ("$x[0]", "({x}.item0)", "bind"), ("np.ndim($x)", "({x}.ndim)"),
         ("$x.shape != ($n,)", "(ScaleArg.shapeNe {x} {n})"),
